@@ -8,7 +8,7 @@
      (timeout)
      (unsupported <what>)     the program leaves the modelled fragment (see Lang.v header)
    <stats> = (st fallthrough commit short match_fail mid_fail closure_call tail_call)
-   argv: [fuel] (default 400000). *)
+   argv: [fuel] (default 400000) [--std FILE] (bundled std modules, output of qv_ast --std). *)
 open Lang_model
 module X = Sexp
 
@@ -227,6 +227,26 @@ and check_expr (Expression bs) =
 let check_program (p : program) =
   List.iter (function StmtExpression s -> check_seq s | _ -> ()) p
 
+(* module paths imported by a program (terms only: a module type needs no evaluation) *)
+let imports_of_program (p : program) : atom list list =
+  let acc = ref [] in
+  let src (a : access) = match a.source with Some (ImportSrc path) -> acc := path :: !acc | _ -> () in
+  let rec term (t : term) = match t with
+    | Access a | Reference a -> src a
+    | Tuple (_, fs) -> List.iter (function TupleField (_, FChain c) -> chain c | _ -> ()) fs
+    | String segs -> List.iter (function Hole e -> expr e | _ -> ()) segs
+    | Block e -> expr e
+    | Function (_, _, _, Some body) -> expr body
+    | Spawn t -> term t
+    | Select (Some cs) -> List.iter chain cs
+    | _ -> ()
+  and chain (Chain (_, ts)) = List.iter term ts
+  and seq (Sequence cs) = List.iter chain cs
+  and expr (Expression bs) =
+    List.iter (fun (Branch (c, k)) -> seq c; (match k with Some s -> seq s | None -> ())) bs in
+  List.iter (function StmtExpression s -> seq s | _ -> ()) p;
+  !acc
+
 (* ---- printing ---- *)
 let rec dump (v : value) : string = match v with
   | VInt n -> "(i " ^ string_of_z n ^ ")"
@@ -254,20 +274,47 @@ let stats_str (w : stats) : string =
     (string_of_z w.n_match_fail) (string_of_z w.n_mid_fail) (string_of_z w.n_closure_call)
     (string_of_z w.n_tail_call)
 
+(* bundled std modules, preloaded from the file given with --std (output of `qv_ast --std`) *)
+let std_mods : (string, program) Hashtbl.t = Hashtbl.create 16
+let load_std (file : string) =
+  let ic = open_in file in
+  (try
+     while true do
+       let line = input_line ic in
+       match X.parse_all line with
+       | [X.List [X.Atom "mod"; path; p]] -> Hashtbl.replace std_mods (X.atom path) (program_of p)
+       | _ -> ()
+     done
+   with End_of_file -> ());
+  close_in ic
+
+let path_atoms (p : string) = List.map intern (String.split_on_char '/' p)
+
 let run_case (fuel : nat) (line : string) : string =
   match X.parse_all line with
   | [X.List (X.Atom "ast" :: main :: mods)] ->
     (try
        let main = program_of main in
-       let mods = List.map (function
-           | X.List [X.Atom "mod"; path; p] ->
-             (List.map intern (String.split_on_char '/' (X.atom path)), program_of p)
+       let own = List.filter_map (function
+           | X.List [X.Atom "mod"; path; p] -> Some (path_atoms (X.atom path), program_of p)
+           | X.List [X.Atom "use"; _] -> None
            | _ -> failwith "mod") mods in
-       check_program main;
-       List.iter (fun (_, p) -> check_program p) mods;
+       (* every std module is visible (they import each other); the case's own modules first *)
+       let std = Hashtbl.fold (fun path p acc -> (path_atoms path, p) :: acc) std_mods [] in
+       let all = own @ std in
+       (* static fragment check of the program and of every module it (transitively) imports *)
+       let seen = Hashtbl.create 8 in
+       let rec visit (p : program) =
+         check_program p;
+         List.iter (fun path ->
+             if not (Hashtbl.mem seen path) then begin
+               Hashtbl.replace seen path ();
+               match List.assoc_opt path all with Some m -> visit m | None -> ()
+             end) (imports_of_program p) in
+       visit main;
        if collect_chains main = [] then "(none)"
        else
-         match eval_program mods fuel main with
+         match eval_program all fuel main with
          | Ret (v, w) -> "(ok " ^ dump v ^ ") " ^ stats_str w
          | TailC _ -> "(err stuck tail)"
          | Error (EStuck s) -> "(err stuck " ^ string_of_z s ^ ")"
@@ -281,8 +328,15 @@ let run_case (fuel : nat) (line : string) : string =
   | _ -> "(skip " ^ (if String.length line > 40 then String.sub line 0 40 else line) ^ ")"
 
 let () =
-  let fuel_n = if Array.length Sys.argv > 1 then int_of_string Sys.argv.(1) else 400000 in
-  let fuel = nat_of_int fuel_n O in
+  let fuel_n = ref 400000 in
+  let i = ref 1 in
+  while !i < Array.length Sys.argv do
+    (match Sys.argv.(!i) with
+     | "--std" -> incr i; load_std Sys.argv.(!i)
+     | n -> fuel_n := int_of_string n);
+    incr i
+  done;
+  let fuel = nat_of_int !fuel_n O in
   (try
      while true do
        let line = input_line stdin in
